@@ -20,7 +20,7 @@ import ShVerif.Model.C05
               | ( fo doPos donePos ( I … ) doEnd ( S … ) ( C … ) ) | ( bi opPos stmt stmt )
               | ( fn stmt ) | ( cs inLine esac ( I … ) ( K caseitem* ) ( C … ) ) | ( wr ( I … ) stmt|- )
     ifc      := ( ic position hasThen thenPos condEnd ( S … ) ( C … ) thenEnd ( S … ) ( C … ) ( C … ) ifc|- )
-    caseitem := ( ci pos opPos endLine ( C … ) ( I … ) ( S … ) ( C … ) )
+    caseitem := ( ci pos opPos opBreak endLine ( C … ) ( I … ) ( S … ) ( C … ) )
     file     := ( f ( S … ) ( C … ) )
 -/
 namespace ShVerif.Drv.C05
@@ -195,11 +195,11 @@ mutual
     | _ => none
   def caseItemsOf : List SExp → Option (List CaseItem)
     | [] => some []
-    | .list [.atom "ci", p, op, el, cs, .list (.atom "I" :: pats), .list (.atom "S" :: ss), last] :: xs =>
-      match posOf p, posOf op, el.atomNat?, comsOf cs, itemsOf pats, stmtsOf ss, comsOf last, caseItemsOf xs with
-      | some p, some op, some el, some cs, some pats, some ss, some last, some rest =>
-        some (.mk p op el cs pats ss last :: rest)
-      | _, _, _, _, _, _, _, _ => none
+    | .list [.atom "ci", p, op, ob, el, cs, .list (.atom "I" :: pats), .list (.atom "S" :: ss), last] :: xs =>
+      match posOf p, posOf op, boolOf ob, el.atomNat?, comsOf cs, itemsOf pats, stmtsOf ss, comsOf last, caseItemsOf xs with
+      | some p, some op, some ob, some el, some cs, some pats, some ss, some last, some rest =>
+        some (.mk p op ob el cs pats ss last :: rest)
+      | _, _, _, _, _, _, _, _, _ => none
     | _ :: _ => none
 end
 
@@ -249,7 +249,7 @@ def handle (args : List String) : String :=
     match m.toNat?, parseFile toks with
     | some m, some f =>
       let σ := printFile (optsOf m) f
-      s!"lossD={σ.lossD} inline={σ.inlineN} strict={WFStrict f} ordered={SourceOrdered f}"
+      s!"lossD={σ.lossD} inline={σ.inlineN} ordered={SourceOrdered f}"
     | _, _ => "bad-op"
   | _ => "bad-op"
 
